@@ -29,6 +29,9 @@ enum Kind {
     ArcDag,
     RcRec,
     ArcRec,
+    /// fixed small graphs whose shared payload is not a struct: null / unit, enum variants,
+    /// sequences, flow wrappers, a wrapper directly inside a wrapper (`nodes[0].id` = shape)
+    Payload,
 }
 impl Kind {
     fn is_rec(self) -> bool {
@@ -1527,6 +1530,137 @@ fn random_graph(kind: Kind, p_share: f64, max_alloc: usize, max_strong: usize, m
 
 // ------------------------------------------------------------------------------------------
 
+/// Shared payloads other than structs. Every shape shares one allocation between the fields
+/// `a` and `c` (or two sequence items) with an unshared sibling in between; after the round trip
+/// the values are equal and `a` / `c` are one allocation again, distinct from the sibling.
+mod payload {
+    use super::*;
+    use serde_saphyr::FlowSeq;
+
+    #[derive(Serialize, Deserialize, Debug, PartialEq, Clone)]
+    pub enum En {
+        U,
+        N(i32),
+        T(i32, i32),
+        S { v: i32 },
+    }
+    #[derive(Serialize, Deserialize, Debug)]
+    struct Three<T: 'static> {
+        a: RcAnchor<T>,
+        b: RcAnchor<T>,
+        c: RcAnchor<T>,
+    }
+    #[derive(Serialize, Deserialize, Debug, PartialEq)]
+    struct Leaf {
+        v: i32,
+    }
+    #[derive(Serialize, Deserialize, Debug)]
+    struct Nested {
+        a: RcAnchor<ArcAnchor<Leaf>>,
+        b: i32,
+        c: RcAnchor<ArcAnchor<Leaf>>,
+    }
+    pub const SHAPES: u32 = 14;
+
+    fn three<T: Serialize + serde::de::DeserializeOwned + PartialEq + std::fmt::Debug + 'static>(shared: T, other: T, o: Option<&SerOpts>) -> Result<(), String> {
+        let x = Rc::new(shared);
+        let doc = Three { a: RcAnchor(x.clone()), b: RcAnchor(Rc::new(other)), c: RcAnchor(x) };
+        let text = emit(&doc, o)?;
+        let back: Three<T> = serde_saphyr::from_str(&text).map_err(|e| format!("emitted text is rejected: {} (emitted {text:?})", e.without_snippet()))?;
+        if *back.a.0 != *doc.a.0 || *back.b.0 != *doc.b.0 || *back.c.0 != *doc.c.0 {
+            return Err(format!("values differ after the round trip: {back:?} (emitted {text:?})"));
+        }
+        if !Rc::ptr_eq(&back.a.0, &back.c.0) {
+            return Err(format!("`a` and `c` were one allocation, they are two after the round trip (emitted {text:?})"));
+        }
+        if Rc::ptr_eq(&back.a.0, &back.b.0) {
+            return Err(format!("`b` was its own allocation, it is shared with `a` after the round trip (emitted {text:?})"));
+        }
+        Ok(())
+    }
+    fn emit<T: Serialize>(v: &T, o: Option<&SerOpts>) -> Result<String, String> {
+        match o {
+            None => serde_saphyr::to_string(v),
+            Some(o) => serde_saphyr::to_string_with_options(v, o.build()),
+        }
+        .map_err(|e| format!("serialization failed: {e}"))
+    }
+
+    pub fn run(shape: u32, o: Option<&SerOpts>) -> Result<(), String> {
+        match shape {
+            0 => three::<Option<i32>>(None, Some(5), o),
+            1 => three::<Option<i32>>(Some(5), None, o),
+            2 => three::<()>((), (), o),
+            3 => three::<En>(En::U, En::N(2), o),
+            4 => three::<En>(En::N(1), En::U, o),
+            5 => three::<En>(En::T(1, 2), En::N(3), o),
+            6 => three::<En>(En::S { v: 1 }, En::U, o),
+            7 => three::<Vec<i32>>(vec![1, 2], vec![3], o),
+            8 => three::<BTreeMap<String, i32>>(BTreeMap::from([("k".to_string(), 1)]), BTreeMap::new(), o),
+            9 => three::<i32>(7, 7, o),
+            10 => three::<String>("text".into(), "text".into(), o),
+            11 => {
+                // shared sequences as items of a block sequence
+                let x = Rc::new(vec![1, 2]);
+                let doc: Vec<RcAnchor<Vec<i32>>> = vec![RcAnchor(x.clone()), RcAnchor(Rc::new(vec![3])), RcAnchor(x)];
+                let text = emit(&doc, o)?;
+                let back: Vec<RcAnchor<Vec<i32>>> = serde_saphyr::from_str(&text).map_err(|e| format!("emitted text is rejected: {} (emitted {text:?})", e.without_snippet()))?;
+                if back.len() != 3 || *back[0].0 != vec![1, 2] || *back[1].0 != vec![3] || *back[2].0 != vec![1, 2] {
+                    return Err(format!("values differ after the round trip: {back:?} (emitted {text:?})"));
+                }
+                if !Rc::ptr_eq(&back[0].0, &back[2].0) || Rc::ptr_eq(&back[0].0, &back[1].0) {
+                    return Err(format!("sharing differs after the round trip (emitted {text:?})"));
+                }
+                Ok(())
+            }
+            12 => {
+                // shared flow sequence as a mapping value
+                #[derive(Serialize, Deserialize, Debug)]
+                struct G {
+                    a: RcAnchor<FlowSeq<Vec<i32>>>,
+                    b: i32,
+                    c: RcAnchor<FlowSeq<Vec<i32>>>,
+                }
+                let x = Rc::new(FlowSeq(vec![1, 2]));
+                let doc = G { a: RcAnchor(x.clone()), b: 3, c: RcAnchor(x) };
+                let text = emit(&doc, o)?;
+                let back: G = serde_saphyr::from_str(&text).map_err(|e| format!("emitted text is rejected: {} (emitted {text:?})", e.without_snippet()))?;
+                if back.a.0 .0 != vec![1, 2] || back.c.0 .0 != vec![1, 2] || back.b != 3 {
+                    return Err(format!("values differ after the round trip (emitted {text:?})"));
+                }
+                if !Rc::ptr_eq(&back.a.0, &back.c.0) {
+                    return Err(format!("sharing differs after the round trip (emitted {text:?})"));
+                }
+                Ok(())
+            }
+            _ => {
+                // a wrapper directly inside a wrapper
+                let n = Rc::new(ArcAnchor(Arc::new(Leaf { v: 1 })));
+                let doc = Nested { a: RcAnchor(n.clone()), b: 2, c: RcAnchor(n) };
+                let text = emit(&doc, o)?;
+                let back: Nested = serde_saphyr::from_str(&text).map_err(|e| format!("emitted text is rejected: {} (emitted {text:?})", e.without_snippet()))?;
+                if back.a.0 .0.v != 1 || back.c.0 .0.v != 1 || back.b != 2 {
+                    return Err(format!("values differ after the round trip (emitted {text:?})"));
+                }
+                if !Rc::ptr_eq(&back.a.0, &back.c.0) {
+                    return Err(format!("sharing differs after the round trip (emitted {text:?})"));
+                }
+                Ok(())
+            }
+        }
+    }
+
+    /// open findings by shape
+    pub fn signature(shape: u32) -> Option<&'static str> {
+        match shape {
+            4..=6 => Some("shared_data_carrying_variant"),
+            11 | 12 => Some("shared_collection_layout"),
+            13 => Some("wrapper_directly_inside_wrapper"),
+            _ => None,
+        }
+    }
+}
+
 struct C14;
 
 fn has_dangling(c: &Case) -> (bool, bool) {
@@ -1583,6 +1717,13 @@ impl Property for C14 {
         ]
     }
     fn check(c: &Case) -> Outcome {
+        if c.kind == Kind::Payload {
+            let shape = c.nodes.first().map(|n| n.id).unwrap_or(0);
+            return match payload::run(shape, c.opts.as_ref()) {
+                Ok(()) => Outcome::Pass,
+                Err(e) => Outcome::Fail(e),
+            };
+        }
         let m = match simulate(c) {
             Ok(m) => m,
             Err(why) => return Outcome::Discard(why),
@@ -1592,6 +1733,7 @@ impl Property for C14 {
             Kind::ArcDag => arc_dag::run(c, &m),
             Kind::RcRec => rc_rec::run(c, &m),
             Kind::ArcRec => arc_rec::run(c, &m),
+            Kind::Payload => unreachable!(),
         };
         match r {
             Ok(()) => Outcome::Pass,
@@ -1599,6 +1741,9 @@ impl Property for C14 {
         }
     }
     fn signatures(c: &Case) -> Vec<&'static str> {
+        if c.kind == Kind::Payload {
+            return payload::signature(c.nodes.first().map(|n| n.id).unwrap_or(0)).into_iter().collect();
+        }
         let (any, map) = has_dangling(c);
         let mut v = vec![];
         if map {
@@ -1628,6 +1773,9 @@ impl Property for C14 {
         v
     }
     fn shrink(c: &Case) -> Vec<Case> {
+        if c.kind == Kind::Payload {
+            return if c.opts.is_some() { vec![Case { opts: None, ..c.clone() }] } else { vec![] };
+        }
         let mut out = vec![];
         // remove a node (largest index first)
         for k in (1..c.nodes.len()).rev() {
@@ -1755,6 +1903,21 @@ impl Property for C14 {
     }
     fn generate(ctx: &mut Ctx<Self>) {
         let thorough = ctx.tier == Tier::Thorough;
+        // --- shared payloads that are not structs, under every option vector of the family --------
+        {
+            let mut i = 0u64;
+            for shape in 0..payload::SHAPES {
+                for ob in [None, Some(0u32), Some(2), Some(3), Some(32), Some(64), Some(128), Some(256), Some(2 | 32 | 256)] {
+                    i += 1;
+                    if !ctx.mine(i) {
+                        continue;
+                    }
+                    let c = Case { kind: Kind::Payload, nodes: vec![NodeD { id: shape, strong: vec![], leaf: None, weak: vec![] }], leaves: vec![], root_wrapped: false, opts: ob.map(c14_opts), strip: false };
+                    ctx.case("shared-payload-kinds", &c, true);
+                }
+            }
+            ctx.subspace("14 payload shapes (null, unit, 4 enum variants, sequence, map, scalars, sequence items, flow sequence, nested wrappers) x 9 option vectors", i, true);
+        }
         let stats: std::rc::Rc<RefCell<BTreeMap<String, u64>>> = std::rc::Rc::new(RefCell::new(BTreeMap::new()));
         let stats2 = stats.clone();
         let note = move |c: &Case| -> bool {
